@@ -54,11 +54,18 @@ def count_nested(df, nested, by=None, join=True) -> NestedFrame:
 
     if by is None:
         field_to_len = df[nested].nest.fields[0]
-        counts = df[nested].nest.to_lists().apply(lambda x: len(x[field_to_len]), axis=1)
+        # a missing row has no records
+        counts = (
+            df[nested]
+            .nest.to_lists()
+            .apply(lambda x: 0 if x[field_to_len] is pd.NA else len(x[field_to_len]), axis=1)
+        )
         counts.name = f"n_{nested}"  # update name directly (rename causes issues downstream)
     else:
         # this may be able to be sped up using tolists() as well
-        counts = df[nested].apply(lambda x: x[by].value_counts(sort=False))
+        counts = df[nested].apply(
+            lambda x: pd.Series(dtype="int64") if x is None else x[by].value_counts(sort=False)
+        )
         counts = counts.rename(columns={colname: f"n_{nested}_{colname}" for colname in counts.columns})
         counts = counts.reindex(sorted(counts.columns), axis=1)
     if join:
